@@ -19,7 +19,7 @@ RULE = ('Cases: an ancestor of 1..3 contigs (a few per run of 45..200 kb with th
 ASSUMPTIONS = ['the planted truth is the oracle; no model of ska is involved',
                'uniqueness is required over the union of samples, see DESIGN.md section 8']
 REQUIRED = {t: ['route:skf', 'route:fasta', 'sites_at_min_gap', 'sites_at_min_end', 'multi_contig', 'contigs_of_length_k_or_k+1', 'parallel_build_path',
-                'names_not_in_sorted_order', 'output_to_existing_longer_file', 'cases_with_1024+_sites', 'cases_with_lower_case_stretches'] for t in ('quick', 'thorough')}
+                'names_not_in_sorted_order', 'output_to_existing_longer_file', 'cases_with_1024+_sites', 'cases_with_lower_case_stretches', 'cases_with_windowless_contigs_among_the_records'] for t in ('quick', 'thorough')}
 
 
 def builds(tier):
@@ -130,10 +130,15 @@ def run_case(desc, ctx):
     if names_exp != sorted(names_exp):
         res.count('names_not_in_sorted_order')
     lower_used = False
+    short_used = False
     for i, s in enumerate(ss):
         order = list(range(len(s)))
         rng.shuffle(order)
         recs = [s[j] if rng.random() < 0.5 else M.rc(s[j]) for j in order]
+        if rng.random() < 0.3:
+            # a contig without any window (shorter than k, or broken by N) somewhere among the records of the file
+            recs.insert(rng.randrange(len(recs) + 1), rng.choice([G.rseq(rng, rng.randint(1, k - 1)), G.rseq(rng, k // 2) + 'N' + G.rseq(rng, k // 2)]))
+            short_used = True
         if rng.random() < 0.3:
             # soft-masked (lower-case) stretches, in some samples only
             j_ = rng.randrange(len(recs))
@@ -145,6 +150,8 @@ def run_case(desc, ctx):
     to_file = rng.random() < 0.3
     if lower_used:
         res.count('cases_with_lower_case_stretches')
+    if short_used:
+        res.count('cases_with_windowless_contigs_among_the_records')
     threads = rng.choice([1, 1, 2, 4, 8])
     res.see('threads', threads)
     if ns >= 10 and threads > 1:
